@@ -74,6 +74,10 @@ package proto
 //@ contract (c *ColAuto) Infer(t) (err) props(C01,C18,C19)
 //@   requires c != nil
 //@   modifies c.Data, c.DataType
+//@ -- an already inferred column is kept only if its FULL type does not conflict with the FULL
+//@ -- requested type (comparing less - e.g. only the base names - would keep Array(Int32) for Array(Int64))
+//@ callsite (ColumnType).Conflicts#1
+//@   assert arg1 == t && arg0 == c.DataType [C18,C19] {kept-only-if-the-whole-type-is-compatible}
 //@ callsite new:ColDecimal32#1
 //@   assert 1 <= prec && prec < 10 [C19] {decimal32-for-precision-1-to-9}
 //@ callsite new:ColDecimal64#1
